@@ -1,7 +1,9 @@
-(* C01 -- Parsing is faithful.  Statements only.  (Stage A: the table obligations; the parser-model
-   theorems are added in Proofs/ExprParser.v as Stage B.) *)
-From Coq Require Import List NArith Bool String.
-From Verif Require Import Gen.GenPrec.
+(* C01 -- Parsing is faithful.  Statements only; proofs are in Proofs/ExprParserProofs.v and
+   Proofs/ExprInstance.v.  The table obligations tie the theorem to today's parser.rs; the parser theorem
+   covers expressions (all operators, unary operators, parentheses, identifiers, integer constants, any
+   trivia); declarations and statements are decided by the search (see tools/props/C01.py). *)
+From Coq Require Import List NArith Bool String Arith.
+From Verif Require Import Base.Res Gen.GenTokens Gen.GenPrec Model.Lexer Model.ExprParser Proofs.ExprParserProofs Proofs.ExprInstance.
 Import ListNotations.
 Local Open Scope string_scope.
 
@@ -24,3 +26,24 @@ Proof. reflexivity. Qed.
 (* the atoms after the last operator level, in order *)
 Theorem C01_prec_atoms : prec_atoms = ["unary_expression"; "constant"; "variable"; "paren"; "function_expression"].
 Proof. reflexivity. Qed.
+
+Close Scope string_scope.
+Close Scope N_scope.
+Open Scope nat_scope.
+
+(* The expression parser returns the meaning of every well-formed spelling and consumes exactly it: whatever the
+   trivia, the redundant parentheses and the size of the expression.  [wf q s] says the spelling has parentheses
+   wherever IEC 61131-3 B.3.1 needs them at level q (so the tree [erase s] associates to the left within a level
+   and binds tighter at higher levels -- the table of C01_prec_table); [follow_*] say what may come next. *)
+Theorem C01_expression_faithful : forall (s : sp token binop unop leaf) q rest,
+  wf token binop unop leaf tok_triv tok_bop tok_uop tok_atom tok_lp tok_rp tok_noafter q s ->
+  follow_lt token binop tok_triv tok_bop q rest ->
+  follow_ok token binop unop leaf tok_triv tok_noafter s rest ->
+  exists f0, forall f, f0 <= f ->
+    parse_expr f q (flat token binop unop leaf s ++ rest) = Ok (erase token binop unop leaf s, rest).
+Proof. exact parse_expr_spelled. Qed.
+
+(* the operator tokens really are at the levels the table says, with the operators it says *)
+Theorem C01_operator_levels : forall k lv o t, In (k, lv, o) op_kinds -> t_kind t = k ->
+  tok_bop t = Some (lv, o) /\ tok_triv t = false /\ tok_noafter t = false.
+Proof. exact op_kind_ok. Qed.
